@@ -146,6 +146,8 @@ def build(p, code, lab):
         return None
     if lab == "pdag":
         A = _g.pdag_matrix(p, ch, und)
+    elif lab == "pdagF":
+        A = np.asfortranarray(_g.pdag_matrix(p, ch, und))
     else:
         if any(und):
             return None
@@ -186,7 +188,7 @@ def run_unit(unit):
                     acc.fail("wide", {"k": k, "lab": lab}, sig, msg)
         return acc.out()
     p = unit["p"]
-    labs = ("pdag",) if unit["stage"] == "pdag" else ("neg", "cancel", "generic", "int")
+    labs = (("pdag", "pdagF") if unit["p"] <= 3 else ("pdag",)) if unit["stage"] == "pdag" else ("neg", "cancel", "generic", "int")
     codes = unit["codes"] if "codes" in unit else range(unit["lo"], unit["hi"])
     mode = sep_mode_for(p, _TIER[0], unit.get("light"))
     for code in codes:
